@@ -500,6 +500,8 @@ impl<'a, Input: InputIndexer> MatchAttempter<'a, Input> {
         _dir: Dir,
     ) -> bool {
         loop {
+            #[cfg(regress_verif)]
+            crate::verif::tick();
             // We always have a single Exhausted instruction backstopping our stack,
             // so we do not need to check for empty bts.
             debug_assert!(!self.bts.is_empty(), "Backtrack stack should not be empty");
@@ -656,6 +658,8 @@ impl<'a, Input: InputIndexer> MatchAttempter<'a, Input> {
                     };
                 }
 
+                #[cfg(regress_verif)]
+                crate::verif::tick();
                 match re.insns.iat(ip) {
                     &Insn::Char(c) => {
                         let m = match <<Input as InputIndexer>::Element as ElementType>::try_from(c)
